@@ -134,6 +134,47 @@ fn pair_run(ch: &Ch, scenario: u32) -> ExecResult {
                     sh.lock().unwrap().done += 1;
                     anyhow::Ok(())
                 });
+            } else if scenario == 3 {
+                // the accepting side keeps the READ half of sub-stream 1 after its end-of-stream (as rpc
+                // calls do) and asks it again while the peer already sends sub-stream 2 on the same
+                // reusable stream: end-of-stream is final, the next sub-stream's frames are not its business
+                s.spawn(async move {
+                    let mut st = c0.open(ctx).await?;
+                    st.write_all(ctx, &tag(0x10, 4)).await?;
+                    st.flush(ctx).await?;
+                    drop(st);
+                    let mut st = c0.open(ctx).await?;
+                    st.write_all(ctx, &tag(0x40, 6)).await?;
+                    st.flush(ctx).await?;
+                    let mut rh = st.close_write();
+                    let got = read_to_end_half(ctx, &mut rh).await?;
+                    if !got.is_empty() {
+                        fail(sh, format!("client stream 2 received {got:?} although its peer wrote nothing"));
+                    }
+                    { let mut g = sh.lock().unwrap(); g.done += 1; g.log.push("client".into()); }
+                    anyhow::Ok(())
+                });
+                s.spawn(async move {
+                    let st = a0.open(ctx).await?;
+                    let mut old_reader = st.close_write();
+                    let got = read_to_end_half(ctx, &mut old_reader).await?;
+                    if got != tag(0x10, 4) {
+                        fail(sh, format!("server stream 1 read {got:?}, expected the 4 bytes written on client stream 1"));
+                    }
+                    let again = read_to_end_half(ctx, &mut old_reader).await?;
+                    if !again.is_empty() {
+                        fail(sh, format!("the reader of server stream 1, asked again after its end-of-stream, received {again:?}: frames of the next sub-stream"));
+                    }
+                    drop(old_reader);
+                    let mut st = a0.open(ctx).await?;
+                    let got = read_to_end_stream(ctx, &mut st).await?;
+                    if got != tag(0x40, 6) {
+                        fail(sh, format!("server stream 2 read {got:?}, expected exactly the 6 bytes written on client stream 2"));
+                    }
+                    drop(st);
+                    sh.lock().unwrap().done += 1;
+                    anyhow::Ok(())
+                });
             } else {
                 for k in 0..3u8 {
                     let c2 = c2.clone();
@@ -188,7 +229,7 @@ fn pair_run(ch: &Ch, scenario: u32) -> ExecResult {
     });
     let g = sh.lock().unwrap();
     let mut violation = g.violation.clone();
-    let want_done = if scenario == 1 { 2 } else { 6 };
+    let want_done = if scenario == 2 { 6 } else { 2 };
     if violation.is_none() && (stuck || g.done != want_done) {
         violation = Some(format!("deadlock: no task is runnable but only {} of {want_done} client/server tasks completed (stuck={stuck})", g.done));
     }
@@ -402,8 +443,8 @@ pub fn run(args: &Args) -> Report {
     let mut capped = false;
     let mut wit2 = 0;
     let mut witf = 0;
-    for sc in [1u32, 2] {
-        let cfgx = ExploreCfg::new(&format!("mux-pair[scenario {sc}]"), bound, budget.saturating_sub(t0.elapsed()) / 2);
+    for sc in [3u32, 1, 2] {
+        let cfgx = ExploreCfg::new(&format!("mux-pair[scenario {sc}]"), bound, budget.saturating_sub(t0.elapsed()) / if sc == 3 { 4 } else { 2 });
         let st = explore(&cfgx, |ch| pair_run(ch, sc));
         execs += st.execs;
         points += st.choice_points;
